@@ -67,6 +67,16 @@ def gen_case(rng, i, tier, pool):
             word = rng.choice([1, 2, 2])
             lines.append("read %d %d %d %d - np" % (word, rng.randint(0, 1), rng.randint(0, 1), rng.choice([4096, 4096, 65536, 7, 1000, word * ch, word * ch2])))
         return lines
+    if ch < 100 and rng.random() < 0.25:
+        # a whole link read by unprimed calls (each call fetches its own packets: page ends and block-size switches fall inside the
+        # calls), at full and at half rate: the position must advance by exactly the frames returned
+        lines[1] = "stream %d %d %.1f %d %d %d" % (ch, rate, q, rng.choice([6000, 12000]), rng.choice([1, 2, 3, 5]), rng.randint(1, 10 ** 6))
+        if rng.random() < 0.7:
+            lines.append("halfrate 1")
+        for _ in range(rng.randint(60, 160)):
+            word = rng.choice([1, 2, 2])
+            lines.append("read %d %d %d %d - np" % (word, rng.randint(0, 1), rng.randint(0, 1), rng.choice([4096, 37 * word * ch, 65536, 1000, 128 * word * ch])))
+        return lines
     if rng.random() < 0.15:
         lines.append("halfrate 1")
     for _ in range(rng.randint(4, 10)):
